@@ -2,6 +2,8 @@ import DoraModel.Props.C08.Cls1
 import DoraModel.Props.C08.Cls2
 import DoraModel.Props.C08.Cls3
 import DoraModel.Props.C08.Cls4
+import DoraModel.Props.C08.Cls5
+import DoraModel.Props.C08.LogImmRT
 import DoraModel.A64.Spec
 import DoraModel.A64.LogImm.All
 import DoraModel.Gen.A64ThmAll
@@ -9,8 +11,8 @@ import DoraModel.Gen.A64ThmAll
 # C08 — Every AArch64 instruction is encoded as the instruction that was requested
 
 Property theorems over the model regenerated from `dora-asm/src/arm64.rs` (`DoraModel/Gen/A64*.lean`).
-The 32 regular class encoders are in `Props/C08/Cls1..4.lean` (`<class>_sound`). Here: the two classes with
-split fields, the immediate encoders, signed-offset recovery (branches / load-store offsets), the
+The 32 regular class encoders are in `Props/C08/Cls1..4.lean` (`<class>_sound`), the two classes with split fields in
+`Props/C08/Cls5.lean`, the logical-immediate round trips in `Props/C08/LogImmRT.lean`. Here: the immediate encoders, signed-offset recovery (branches / load-store offsets), the
 reference decoder's agreement with the class fields on the register-31 rule.
 
 Per public method (`<method>_ok`, "the emitted word decodes under the reference decoder to exactly the requested
@@ -24,43 +26,6 @@ own bytes, and decoder/spec are validated against llvm-mc.
 -/
 namespace Dora.A64.C08
 open Dora.A64
-
-/-- Class `pcrel` (`adr`/`adrp`): accepted ⇒ the 21-bit signed immediate fits and is split exactly into
-immlo (bits 30:29) and immhi (bits 23:5); rd is a general register; remaining bits are the opcode. -/
-theorem pcrel_sound (op imm : BitVec 32) (rd : Register) (w : BitVec 32)
-    (h : cls.pcrel op imm rd = .ok w) :
-    op.ult 2#32 = true ∧ w.extractLsb' 31 1 = BitVec.setWidth 1 op ∧
-    BitVec.sle 4293918720#32 imm = true ∧ BitVec.slt imm 1048576#32 = true ∧
-    w.extractLsb' 29 2 = imm.extractLsb' 0 2 ∧ w.extractLsb' 5 19 = imm.extractLsb' 2 19 ∧
-    rd.v.ule 30#8 = true ∧ w.extractLsb' 0 5 = BitVec.setWidth 5 rd.v ∧
-    w &&& 520093696#32 = 268435456#32 := by
-  unfold cls.pcrel at h
-  cls_norm at h
-  bv_decide (timeout := 600)
-
-example : ∃ w, cls.pcrel 1#32 4294967295#32 R17 = .ok w := ⟨_, rfl⟩
-
-/-- Class `test_and_branch` (`tbz`/`tbnz`): accepted ⇒ bit number and register fit and are placed (b5 at bit 31,
-b40 at 23:19), the distance fits the signed 14-bit field and sits at 18:5, opcode bits fixed.
-(Before /repo commit 7810b35b9 `fits_i14` accepted one bit too many and only a `_partial` form held.) -/
-theorem test_and_branch_sound (op bit imm14 : BitVec 32) (rt : Register) (w : BitVec 32)
-    (h : cls.test_and_branch op bit imm14 rt = .ok w) :
-    op.ult 2#32 = true ∧ w.extractLsb' 24 1 = BitVec.setWidth 1 op ∧
-    bit.ult 64#32 = true ∧ w.extractLsb' 31 1 = bit.extractLsb' 5 1 ∧ w.extractLsb' 19 5 = bit.extractLsb' 0 5 ∧
-    BitVec.sle 4294959104#32 imm14 = true ∧ BitVec.slt imm14 8192#32 = true ∧
-    w.extractLsb' 5 14 = BitVec.setWidth 14 imm14 ∧ BitVec.signExtend 32 (w.extractLsb' 5 14) = imm14 ∧
-    rt.v.ule 30#8 = true ∧ w.extractLsb' 0 5 = BitVec.setWidth 5 rt.v ∧
-    w &&& 2113929216#32 = 905969664#32 := by
-  unfold cls.test_and_branch at h
-  cls_norm at h
-  bv_decide (timeout := 600)
-
-example : ∃ w, cls.test_and_branch 1#32 37#32 4294967295#32 R17 = .ok w := ⟨_, rfl⟩
-
-/-- a distance of +8192 instructions (one past the field) is refused, -8192 is the last one accepted -/
-example : (∀ w, cls.test_and_branch 0#32 0#32 8192#32 R0 ≠ .ok w) ∧
-    (∃ w, cls.test_and_branch 0#32 0#32 4294959104#32 R0 = .ok w) :=
-  ⟨fun w h => by simp [cls.test_and_branch, rassert, fits_bit, fits_i14, bind, Except.bind] at h, ⟨_, rfl⟩⟩
 
 /-- "An operand that cannot be encoded is refused rather than silently truncated", signed fields: whenever
 `fits_iK` accepts a distance/offset, sign-extending the K-bit field gives the operand back
@@ -132,54 +97,6 @@ theorem addsub_imm_encoding_refuses (imm : BitVec 32) :
       constructor <;> bv_decide (timeout := 600)
 
 example : encode_addsub_imm 4097#32 = none := by decide
-
-/-
-Full statement wanted for logical immediates (`logical_imm_sound`):
-  ∀ imm sz e, encode_logical_imm imm sz = .ok (some e) → DecodeBitMasks e sz = imm
-Proved below is the round trip over the IMAGE of DecodeBitMasks (all 5 334 + 1 302 encodable immediates, by kernel
-evaluation of the regenerated `encode_logical_imm` on every 13-bit encoding): every encodable immediate is
-accepted and the returned N:immr:imms denotes it again. Missing: that an immediate which is NOT encodable is never
-given an encoding (for those the function must return `None`); that half is only compared on every run
-(non-encodable immediates of the sweep are refused by Rust and by the model alike, llvm-mc agrees on the rest).
--/
-/-- Logical immediates, 64-bit, partial: every value that `DecodeBitMasks(N, imms, immr)` denotes is accepted by
-`encode_logical_imm`, and the encoding it returns denotes exactly that value (ARM ARM pseudocode as decoder). -/
-theorem logical_imm_roundtrip64_partial (n immr imms v : Nat) (hn : n < 2) (hr : immr < 64) (hs : imms < 64)
-    (h : decodeBitMasks n imms immr 64 = some v) :
-    ∃ e', encode_logical_imm (BitVec.ofNat 64 v) 64#32 = .ok (some e') ∧
-      decodeBitMasks (lN e'.toNat) (lImms e'.toNat) (lImmr e'.toNat) 64 = some v := by
-  have hk := LogImm.logImmOk64 (n * 4096 + immr * 64 + imms) (by omega)
-  have e1 : lN (n * 4096 + immr * 64 + imms) = n := by unfold lN; omega
-  have e2 : lImmr (n * 4096 + immr * 64 + imms) = immr := by unfold lImmr; omega
-  have e3 : lImms (n * 4096 + immr * 64 + imms) = imms := by unfold lImms; omega
-  unfold logImmOk at hk
-  rw [e1, e2, e3, h] at hk
-  simp only [] at hk
-  split at hk
-  · rename_i e' he
-    exact ⟨e', he, by simpa using hk⟩
-  · simp at hk
-
-example : decodeBitMasks 0 0b111100 0 64 = some 0x5555555555555555 := by decide
-
-/-- Logical immediates, 32-bit, partial: the same round trip for the 32-bit forms (N = 0). -/
-theorem logical_imm_roundtrip32_partial (immr imms v : Nat) (hr : immr < 64) (hs : imms < 64)
-    (h : decodeBitMasks 0 imms immr 32 = some v) :
-    ∃ e', encode_logical_imm (BitVec.ofNat 64 v) 32#32 = .ok (some e') ∧
-      decodeBitMasks (lN e'.toNat) (lImms e'.toNat) (lImmr e'.toNat) 32 = some v := by
-  have hk := LogImm.logImmOk32 (immr * 64 + imms) (by omega)
-  have e1 : lN (immr * 64 + imms) = 0 := by unfold lN; omega
-  have e2 : lImmr (immr * 64 + imms) = immr := by unfold lImmr; omega
-  have e3 : lImms (immr * 64 + imms) = imms := by unfold lImms; omega
-  unfold logImmOk at hk
-  rw [e1, e2, e3, h] at hk
-  simp only [] at hk
-  split at hk
-  · rename_i e' he
-    exact ⟨e', he, by simpa using hk⟩
-  · simp at hk
-
-example : decodeBitMasks 0 7 0 32 = some 255 := by decide
 
 /-- Register-31 rule of the public convention: `REG_ZERO` (100) and `REG_SP` (101) both become field value 31, but
 each `encoding_*` accessor accepts only the kind its operand position can name; any other register value
